@@ -50,6 +50,7 @@ type Val struct {
 	// struct value held as fields
 	Fields map[string]Val
 	Fn     *ssa.Function // static function value / closure
+	GHeap  string        // ghost array: contents live in this ghost heap
 }
 
 type State struct {
@@ -165,6 +166,7 @@ type modTarget struct {
 	heap string
 	ref  *Term
 	expr string
+	elem types.Type // element / pointee type (nil for ghost targets)
 }
 
 // ---------- types ----------
@@ -367,6 +369,9 @@ func (v *FnVC) define(prefix string, t *Term) *Term {
 	c := v.fresh(prefix, t.Sort)
 	v.defs = append(v.defs, App("=", SBool, c, t))
 	v.defBlocks = append(v.defBlocks, v.curBlock)
+	if t.Op == "store" {
+		defOf[c.Name] = t
+	}
 	return c
 }
 
